@@ -12,15 +12,30 @@ pub struct Opts {
     pub cases: u64,
     pub replay: Option<Value>,
     pub thorough: bool,
+    pub shard: u64,
+    pub shards: u64,
+    /// Signatures of known findings (status known): their exact domain is excluded by construction.
+    pub known: Vec<String>,
 }
 
 impl Opts {
+    /// True iff `sig` is listed as a known finding (exact match, or prefix match for entries ending in `*`).
+    pub fn is_known(&self, sig: &str) -> bool {
+        self.known.iter().any(|k| match k.strip_suffix('*') {
+            Some(p) => sig.starts_with(p),
+            None => k == sig,
+        })
+    }
+
     pub fn parse(args: &[String]) -> Opts {
         let mut o = Opts {
             seed: 1,
             cases: 10000,
             replay: None,
             thorough: false,
+            shard: 0,
+            shards: 1,
+            known: Vec::new(),
         };
         let mut i = 0;
         while i < args.len() {
@@ -38,6 +53,18 @@ impl Opts {
                     i += 1;
                 }
                 "--thorough" => o.thorough = true,
+                "--shard" => {
+                    o.shard = args[i + 1].parse().unwrap();
+                    i += 1;
+                }
+                "--shards" => {
+                    o.shards = args[i + 1].parse().unwrap();
+                    i += 1;
+                }
+                "--known" => {
+                    o.known.push(args[i + 1].clone());
+                    i += 1;
+                }
                 _ => {}
             }
             i += 1;
@@ -90,7 +117,7 @@ impl Stats {
         self.evaluations += 1;
         if let Some(k) = nontrivial_key {
             if self.nontrivial_bits.is_empty() {
-                self.nontrivial_bits = vec![0u64; 1 << 23];
+                self.nontrivial_bits = vec![0u64; 1 << 21];
             }
             use std::hash::Hash as _;
             use std::hash::Hasher as _;
